@@ -252,6 +252,33 @@ def judge(case):
     return _judge(case["scenario"])
 
 
+def _judge_rejected_batch(rng, tag):
+    """Successive partial fits where one batch is rejected (targets shorter than inputs) and the caller goes on: the result must be
+    the ridge optimum of the ACCEPTED batches, i.e. equal to the same session without the rejected batch (added by the lead after a
+    seeded change made the accumulation of one batch non-atomic)."""
+    rpy()
+    from reservoirpy.nodes import Ridge
+    d, o = rng.randint(1, 3), rng.randint(1, 2)
+    batches = [(farr(rand_rows(rng, 4, d), d), farr(rand_rows(rng, 4, o), o)) for _ in range(3)]
+    bad = (farr(rand_rows(rng, 5, d), d), farr(rand_rows(rng, 3, o), o))
+    pos = rng.randint(1, 2)
+    a = Ridge(ridge=0.5, name=uname("rb_a")); b = Ridge(ridge=0.5, name=uname("rb_b"))
+    rejected = False
+    for k, (x, y) in enumerate(batches):
+        if k == pos:
+            try:
+                a.partial_fit(bad[0], bad[1])
+            except Exception:  # noqa: BLE001
+                rejected = True
+        a.partial_fit(x, y); b.partial_fit(x, y)
+    a.fit(); b.fit()
+    if rejected and (not np.allclose(a.Wout, b.Wout, rtol=1e-10, atol=1e-12) or not np.allclose(a.bias, b.bias, rtol=1e-10, atol=1e-12)):
+        return _viol("ridge:rejected-batch-leaves-partial-sums", "a partial_fit batch rejected with an exception still changed the accumulators: the fit is not the "
+                     "optimum over the accepted batches", {"tag": tag, "kind": "rejected-batch", "d": d, "o": o, "pos": pos},
+                     np.asarray(b.Wout).tolist(), np.asarray(a.Wout).tolist())
+    return None
+
+
 def oracle(ctx, scale=1):
     rng = ctx.rng("oracle")
     cases = gen_cases(rng, ctx.n(100, 1200) * scale)
@@ -260,11 +287,20 @@ def oracle(ctx, scale=1):
         v = _judge(c, rng)
         if v:
             out.append(v)
+    for i in range(ctx.n(10, 100)):
+        v = _judge_rejected_batch(rng, "%d_%d" % (ctx.seed, i))
+        if v:
+            out.append(v)
     return {"evaluations": len(cases), "violations": out,
             "rule": "exact-rational normal-equation residual of the observed Wout/bias, objective values at random and gradient-direction "
                     "perturbations, Wout^T x + bias vs run(x), refit after overwriting the warm-up rows; all on the real Ridge node"}
 
 
 def replay(payload):
+    if payload.get("scenario", {}).get("kind") == "rejected-batch":
+        import random
+        vs = [_judge_rejected_batch(random.Random(i), "rp%d" % i) for i in range(20)]
+        vs = [v for v in vs if v]
+        return {"violates": bool(vs), "detail": vs[:1]}
     v = _judge(payload["scenario"])
     return {"violates": bool(v), "detail": v}
